@@ -3,7 +3,7 @@
     checker ([prop_event], i.e. [prop_case] minus the SQLite verdicts, which are observations
     about the real database and not derivable from the model). *)
 From V.Lib Require Import Base.
-From V.C18 Require Import Model Spec Store Corr Wf ProofsDead ProofsKernel ProofsLife ProofsDrive ProofsRebuild ProofsSeq ProofsStrand ProofsTerm ProofsStatus.
+From V.C18 Require Import Model Spec Store Corr Wf ProofsDead ProofsKernel ProofsLife ProofsDrive ProofsRebuild ProofsSeq ProofsStrand ProofsTerm ProofsStatus ProofsMarks ProofsMarks2.
 From Coq Require Import ZifyBool.
 Local Open Scope Z_scope.
 
@@ -397,4 +397,95 @@ Proof.
   - unfold run_case in H. destruct (model_event pre ev) as [[s' o]|]; [|discriminate].
     apply andb_true_iff in H. destruct H as [H _]. apply andb_true_iff in H. destruct H as [H1 H2].
     split; [apply mstate_eqb_eq; exact H1 | apply output_eqb_eq; exact H2].
+Qed.
+
+(* ---------------------------------------------------------------------------------------- *)
+(** * Mark soundness: from the model's theorems to the boolean clause [prop_marks] *)
+
+Lemma src_dead_b_ok : forall txs sc d, src_dead txs sc d -> src_dead_b txs sc d = true.
+Proof.
+  intros txs sc d [x [F [M D]]]. unfold src_dead_b. rewrite F. unfold sp_unmined, sp_expired, sp_unmined. rewrite M. simpl.
+  destruct D as [D|D]; [apply is_some_spec in D; rewrite D; reflexivity|].
+  unfold is_expired in D. rewrite M in D. rewrite D. apply orb_true_r.
+Qed.
+
+(** the checker with the lookup list made explicit *)
+Definition nms_b (oracle : Z -> list answer) (sc : Z) (full pre post : list mtx) : bool :=
+  forall2b (fun a b =>
+    match t_unsat a, t_unsat b with
+    | None, Some (_, KInherited) => existsb (src_dead_b full sc) (t_deps b)
+    | None, Some (h, k) => existsb (fun an => answer_backs an h k) (oracle (t_id b))
+    | _, _ => true
+    end) pre post.
+
+Lemma nms_ok : forall (P : Z -> answer -> Prop) oracle sc full pre post,
+  (forall i an, P i an -> In an (oracle i)) ->
+  marks_soundF sc full pre post ->
+  Forall2 (fun a c => t_id a = t_id c /\
+      (t_unsat a = None -> forall h k, t_unsat c = Some (h, k) -> k <> KInherited ->
+         exists an, P (t_id c) an /\ answer_backs an h k = true)) pre post ->
+  nms_b oracle sc full pre post = true.
+Proof.
+  intros P oracle sc full pre post O H1. unfold nms_b, marks_soundF in *.
+  induction H1 as [|a c l l' [_ I] _ IH]; intros H2; inversion H2 as [|? ? ? ? [_ D] H2']; subst; simpl; [reflexivity|].
+  rewrite (IH H2'), andb_true_r.
+  destruct (t_unsat a) eqn:Ua; [reflexivity|]. destruct (t_unsat c) as [[h k]|] eqn:Uc; [|reflexivity].
+  assert (DIR : k <> KInherited -> existsb (fun an => answer_backs an h k) (oracle (t_id c)) = true).
+  { intros NK. destruct (D eq_refl h k eq_refl NK) as [an [Pa Ba]]. apply existsb_exists. exists an. split; [apply O; exact Pa | exact Ba]. }
+  destruct k; try (apply DIR; discriminate).
+  destruct (I eq_refl h eq_refl) as [d [Id Dd]]. apply existsb_exists. exists d. split; [exact Id | apply src_dead_b_ok; exact Dd].
+Qed.
+
+Lemma fresh_marks_soundF : forall sc full pre post, Forall2 (fresh_ok sc full) pre post -> marks_soundF sc full pre post.
+Proof.
+  intros sc full pre post H. unfold marks_soundF. induction H as [|a c l l' [[E _] F] _ IH]; constructor; [|exact IH].
+  split; [exact E | exact F].
+Qed.
+
+Lemma dir_backed : forall (P : Z -> answer -> Prop) pre post, Forall2 (dir_ok P) pre post ->
+  Forall2 (fun a c => t_id a = t_id c /\
+      (t_unsat a = None -> forall h k, t_unsat c = Some (h, k) -> k <> KInherited ->
+         exists an, P (t_id c) an /\ answer_backs an h k = true)) pre post.
+Proof.
+  intros P pre post H. induction H as [|a c l l' [[E _] F] _ IH]; constructor; [|exact IH]. split; [exact E | exact F].
+Qed.
+
+Theorem bridge_marks : forall pre ev post out, NoDup (map t_id (m_txs pre)) ->
+  match model_event pre ev with Some (s', o) => s' = post /\ o = out | None => False end ->
+  prop_marks pre ev post = true.
+Proof.
+  intros pre ev post out ND H. destruct (model_event pre ev) as [[s' o]|] eqn:M; [|contradiction]. destruct H as [-> _].
+  destruct ev; try reflexivity; cbn [prop_marks model_event] in *.
+  - (* advance *)
+    destruct (advance (sat_of answers dflt) (mined_of mined) pre (mk_targets scanned est) (ages, O)) as [st s1 d|] eqn:A; [|discriminate].
+    destruct (advance_outlook _ _ _ _ _); [|discriminate]. inversion M; subst.
+    change (new_marks_sound_b ?o ?sc ?p ?q) with (nms_b o sc q p q).
+    apply (nms_ok (said (sat_of answers dflt))).
+    + intros i an [t [Ei Ea]]. unfold sat_of in Ea. rewrite Ei in Ea. left. exact Ea.
+    + exact (advance_marks_sound _ _ _ _ _ _ _ _ ND A).
+    + exact (advance_marks_backed _ _ _ _ _ _ _ _ ND A).
+  - (* record_satisfiability *)
+    inversion M; subst.
+    change (new_marks_sound_b ?o ?sc ?p ?q) with (nms_b o sc q p q).
+    apply (nms_ok (fun i a => In (i, a) dets)).
+    + intros i an I. apply in_map_iff. exists (i, an). split; [reflexivity|]. apply filter_In. split; [exact I | simpl; apply Z.eqb_refl].
+    + apply fresh_marks_soundF. apply record_sat_marks. exact ND.
+    + apply (dir_backed (fun i a => In (i, a) dets)). apply record_sat_direct; [exact ND|]. apply Forall_forall. intros [i a] I. exact I.
+Qed.
+
+(** the full bridge: on a well-formed case, agreement with the model implies everything
+    [prop_case] checks except the SQLite verdicts (observations of the real database) *)
+Theorem bridge_full : forall pre ev post out p,
+  wf_case (Case pre ev post out p) = true ->
+  run_case (Case pre ev post out p) = true ->
+  prop_event pre ev post out && prop_marks pre ev post = true.
+Proof.
+  intros pre ev post out p W H. rewrite (bridge pre ev post out p W H). simpl.
+  assert (ND : NoDup (map t_id (m_txs pre))).
+  { unfold wf_case in W. apply andb_true_iff in W. destruct W as [W _]. apply andb_true_iff in W. destruct W as [W _].
+    unfold wf_state in W. repeat (apply andb_true_iff in W; destruct W as [W ?]). apply nodupb_NoDup. exact W. }
+  apply (bridge_marks pre ev post out ND).
+  unfold run_case in H. destruct (model_event pre ev) as [[s' o]|]; [|discriminate].
+  apply andb_true_iff in H. destruct H as [H _]. apply andb_true_iff in H. destruct H as [H1 H2].
+  split; [apply mstate_eqb_eq; exact H1 | apply output_eqb_eq; exact H2].
 Qed.
